@@ -75,3 +75,46 @@ def _replay_missing_row(model, contract):
 
 for _tag in ("second_population_missing", "first_population_missing", "only_a_population_of_another_type", "no_rows"):
     CONTRACTS["data:ProjectData.validate#table_%s" % _tag]["replay_hook"] = _replay_missing_row
+
+
+# ---- ProjectData.from_spreadsheet, one table of a quantity sheet (body of the loop over the tables of a sheet; C18: "duplicate names"): the table is looked up in the framework by
+# its name, stored under the quantity's CODE name and listed on the sheet it was found on, with the framework's units, population type and guidance; a second table for the same
+# code name is refused with InvalidDatabook; a table the framework does not know is refused.  from_rows and the framework are ghosts.
+def _env_table(existing_keys, known=True):
+    def make(it):
+        from pyvc.interp import PyObjV
+        from pyvc import source
+
+        dm, um, em = source.load("data"), source.load("utils"), source.load("excel")
+        ts = PyObjV("TimeSeries", um, {"units": "probability", "t": [], "vals": [], "assumption": 0.5, "sigma": None})
+        tdve = PyObjV("TimeDependentValuesEntry", em, {"name": "Quantity", "ts": {"adults": ts}, "allowed_units": None, "pop_type": None, "comment": None})
+        sheet = PyObjV("Worksheet", dm, {"title": "Sheet A"})
+        self = PyObjV("ProjectData", dm, {"tdve": {k: "earlier table" for k in existing_keys}, "tdve_pages": {"Sheet A": [k for k in existing_keys]}})
+        return {"self": self, "table": "ROWS", "start_row": 7, "sheet": sheet, "framework": "FRAMEWORK", "TDVE": tdve, "SPEC": PyObjV("Series", dm, {"name": "q"}), "KNOWN": known, "TS": ts}
+
+    return make
+
+
+def _ghost_get_variable(it, name):
+    from pyvc.interp import _Raise
+
+    if not it.live_env["KNOWN"]:
+        raise _Raise("NotFoundError")
+    return (it.live_env["SPEC"], "par")
+
+
+_tbl_calls = {"TimeDependentValuesEntry.from_rows": (lambda it, table: it.live_env["TDVE"]), "framework.get_variable": _ghost_get_variable, "framework.get_databook_units": (lambda it, code: "probability"),
+              "logger.warning": (lambda it, *a, **k: None)}
+_tbl_stubs = {"spec['population type']": "POPTYPE", "spec['databook page']": "PAGE", "spec['guidance']": "GUIDANCE"}
+_tbl_extra = {"POPTYPE": "hum", "PAGE": "sheet_a", "GUIDANCE": "a note"}
+CONTRACTS["data:ProjectData.from_spreadsheet#table_of_a_new_quantity"] = dict(
+    schema=schema, fragment={"iter": "zip(tables, start_rows)", "body_contains": "from_rows"}, make_env=(lambda it: dict(_env_table(["Quantity", "other"])(it), **_tbl_extra)), call_stubs=_tbl_calls, stubs=_tbl_stubs,
+    ensures=[("C18+C16.the_table_is_stored_under_the_code_name_of_its_quantity_and_listed_on_its_sheet", "self.tdve['q'] is TDVE and len(self.tdve) == 3 and self.tdve_pages['Sheet A'] == ['Quantity', 'other', 'q']"),
+             ("C18+C16.it_gets_the_frameworks_units_population_type_and_guidance", "TDVE.allowed_units == ['probability'] and TDVE.pop_type == 'hum' and TDVE.comment == 'a note' and TS.units == 'probability'")],
+    defined_props=["C18", "C16"], raises_props=["C18"])
+CONTRACTS["data:ProjectData.from_spreadsheet#second_table_for_the_same_quantity"] = dict(
+    schema=schema, fragment={"iter": "zip(tables, start_rows)", "body_contains": "from_rows"}, make_env=(lambda it: dict(_env_table(["q"])(it), **_tbl_extra)), call_stubs=_tbl_calls, stubs=_tbl_stubs,
+    raises={"InvalidDatabook": "True"}, raises_props=["C18"], ensures=[], defined_props=["C18", "C16"])
+CONTRACTS["data:ProjectData.from_spreadsheet#table_the_framework_does_not_know"] = dict(
+    schema=schema, fragment={"iter": "zip(tables, start_rows)", "body_contains": "from_rows"}, make_env=(lambda it: dict(_env_table([], known=False)(it), **_tbl_extra)), call_stubs=_tbl_calls, stubs=_tbl_stubs,
+    raises={"InvalidDatabook": "True"}, raises_props=["C18"], ensures=[], defined_props=["C18", "C16"])
